@@ -3,7 +3,9 @@
 (* reference of ResetInserter / EnableInserter / DomainRenamer; property C03).                    *)
 (* The design: a submodule S holding registers r1 (domain D1), r2 (domain D2, reset-less) and r4    *)
 (* (a two-bit signal whose bits are split between D1 and D2),                                      *)
-(* each assigned the input d every cycle, wrapped in a stack of inserters/renamers; and a          *)
+(* each assigned the input d every cycle, and a one-bit memory row mw with a write port in D1       *)
+(* (data d, always enabled), a synchronous read port mr in D2 and a read port mt in D1 that is      *)
+(* transparent for the write port; all wrapped in a stack of inserters/renamers; and a          *)
 (* register r3 in domain "A" at the top level, outside every wrapper.  Domains "A" and "B" have    *)
 (* configurable active edge and reset style.  A behaviour is a sequence of *events*: simultaneous  *)
 (* clock edges of A and/or B, or a change of one input (d, the control signals c1/c2, the resets). *)
@@ -22,9 +24,14 @@ VARIABLES cfg,           \* [A |-> domcfg, B |-> domcfg, ws |-> stack, d1, d2]  
 vars == <<cfg, v, ev, n>>
 
 (* r4 is ONE two-bit signal inside S whose bit 0 (r4a) is driven in domain D1 and bit 1 (r4b) in domain D2 *)
-Inits == [r1 |-> 1, r2 |-> 1, r3 |-> 1, r4a |-> 1, r4b |-> 1]   \* initial (= reset) values of the registers
-ResetLess == [r1 |-> FALSE, r2 |-> TRUE, r3 |-> FALSE, r4a |-> FALSE, r4b |-> FALSE]
-BaseDom(r) == IF r \in {"r1", "r4a"} THEN cfg.d1 ELSE IF r \in {"r2", "r4b"} THEN cfg.d2 ELSE "A"
+(* mw (memory row), mr, mt (read port outputs) are state that no reset ever touches: memories have no reset *)
+Inits == [r1 |-> 1, r2 |-> 1, r3 |-> 1, r4a |-> 1, r4b |-> 1, mw |-> 1, mr |-> 0, mt |-> 0]   \* initial (= reset) values
+ResetLess == [r1 |-> FALSE, r2 |-> TRUE, r3 |-> FALSE, r4a |-> FALSE, r4b |-> FALSE, mw |-> TRUE, mr |-> TRUE, mt |-> TRUE]
+BaseDom(r) == IF r \in {"r1", "r4a", "mw", "mt"} THEN cfg.d1 ELSE IF r \in {"r2", "r4b", "mr"} THEN cfg.d2 ELSE "A"
+(* what the innermost logic loads: registers and the write port take d; the plain read port captures the row as it *)
+(* was before the edge; the transparent one captures the data being written at that edge (its write port shares    *)
+(* its domain and every wrapper, so it is enabled exactly when the read port is)                                 *)
+Load(r, env) == IF r = "mr" THEN env["mw"] ELSE env["d"]
 Stack(r) == IF r = "r3" THEN <<>> ELSE cfg.ws  \* r3 lives outside the wrapped subtree
 
 RECURSIVE DomAfter(_, _)
@@ -37,7 +44,7 @@ FinalDom(r) == DomAfter(r, Len(Stack(r)))
 
 RECURSIVE Upd(_, _, _)
 Upd(r, i, env) ==        \* value the logic inside the first i wrappers loads at the active edge
-    IF i = 0 THEN env["d"]
+    IF i = 0 THEN Load(r, env)
     ELSE LET w == Stack(r)[i]
              here == DomAfter(r, i - 1)
              inner == Upd(r, i - 1, env) IN
@@ -61,7 +68,7 @@ RegAfter(r, old, new) ==
     ELSE IF ActiveEdge(dn, old, new) THEN (IF rstNow THEN Inits[r] ELSE Upd(r, Len(Stack(r)), old))
     ELSE old[r]
 
-Regs == {"r1", "r2", "r3", "r4a", "r4b"}
+Regs == {"r1", "r2", "r3", "r4a", "r4b", "mw", "mr", "mt"}
 Apply(changes) ==        \* changes: a function from some input names to new values
     LET new == [s \in DOMAIN v |-> IF s \in DOMAIN changes THEN changes[s] ELSE v[s]] IN
     [s \in DOMAIN v |-> IF s \in Regs THEN RegAfter(s, v, new) ELSE new[s]]
@@ -70,7 +77,7 @@ Init ==
     /\ \E a \in DomCfgs, b \in DomCfgs, ws \in Stacks, dd \in RegDoms :
           cfg = [A |-> a, B |-> b, ws |-> ws, d1 |-> dd[1], d2 |-> dd[2]]
     /\ v = [clkA |-> 0, clkB |-> 0, rstA |-> 0, rstB |-> 0, c1 |-> 0, c2 |-> 0, d |-> 0, r1 |-> 1, r2 |-> 1, r3 |-> 1,
-            r4a |-> 1, r4b |-> 1]
+            r4a |-> 1, r4b |-> 1, mw |-> 1, mr |-> 0, mt |-> 0]
     /\ ev = <<>> /\ n = 0
 
 (* clock events: any non-empty simultaneous change of the two clocks *)
@@ -101,6 +108,11 @@ ChangeOnlyAtOwnEdge ==
 (* reset-less registers never return to their initial value because of a reset: they only ever load d *)
 ResetLessIgnoresResets ==
     [][v'["r2"] # v["r2"] => v'["r2"] = v["d"]]_vars
+(* memory state is never reset: the row only ever takes d, the read port only ever takes the row *)
+MemoryIgnoresResets ==
+    [][/\ v'["mw"] # v["mw"] => v'["mw"] = v["d"]
+       /\ v'["mr"] # v["mr"] => v'["mr"] = v["mw"]
+       /\ v'["mt"] # v["mt"] => v'["mt"] = v["d"]]_vars
 (* r3 is outside the wrapped subtree: no inserted control ever affects it *)
 OutsideUnaffected ==
     [][ActiveEdge("A", v, v') => v'["r3"] = (IF cfg.A.rst # "none" /\ v["rstA"] = 1 THEN 1 ELSE v["d"])]_vars
